@@ -146,6 +146,14 @@ func init() {
 			}
 			return a[0]
 		},
+		"verif/symx.SameFloat": func(fr *frame, a []value) value {
+			i := fr.i
+			if !isSym(a[0]) && !isSym(a[1]) {
+				x, y := a[0].(float64), a[1].(float64)
+				return (x != x && y != y) || math.Float64bits(x) == math.Float64bits(y)
+			}
+			return mkSym(i.ctx.SameFP(i.termOf(a[0]), i.termOf(a[1])), types.Bool)
+		},
 		"verif/symx.Ite": func(fr *frame, a []value) value {
 			// Ite(c bool, x, y int) int without forking
 			i := fr.i
